@@ -546,3 +546,20 @@ Proof.
 Qed.
 Print Assumptions C03_aw_guard_remembered.
 End C03_autowrite_remembered.
+
+(* :q / :wq / :x / :xa without `!` NEVER quit over a newer file, wherever its slot stands in bufs[]: if some slot that the loop would
+   have to save (xa: any slot; q: a modified slot, autowrite on or off) has a file stamped later than the stamp the slot remembers, and
+   the slots in front of it denote other files, then the loop does not run to its end (it stops at that slot or before it with a status
+   that is not ok -- so ec_quit does not quit) and what the slot's path denotes (bytes and stamp) is exactly what it was, whatever the
+   saves of the slots in front did and whatever faults struck them.  With C03_aw_history (remembered <= ghost after every history) the
+   same holds for a file newer than what the editor read or wrote last. *)
+Section C03_autowrite_loop.
+Import IoAwDefs IoAwProps.
+Theorem C03_aw_quit_never_over_newer : forall now aw all lk (pre : list gbuf) (x : gbuf) (rest : list gbuf) fs sch k st tb' fs' r,
+  Forall (fun y : gbuf => resolve lk (b_path (fst x)) <> resolve lk (b_path (fst y))) pre ->
+  newer_rem lk fs x -> (all = true \/ b_dirty (fst x) = true) ->
+  quit_scan bufs_modified now aw all false lk (pre ++ x :: rest) fs sch = (k, st, tb', fs', r) ->
+  (exists i, k = Some i /\ i <= length pre) /\ st <> SOk /\ target lk fs' (b_path (fst x)) = target lk fs (b_path (fst x)).
+Proof. exact quit_scan_newer_any. Qed.
+Print Assumptions C03_aw_quit_never_over_newer.
+End C03_autowrite_loop.
